@@ -76,6 +76,7 @@ type specBias struct {
 	display       int
 	stateBias     bool
 	unicode       int
+	lrDirect      bool
 }
 
 func drawSpec(r *rng, name string, b specBias) *genParser {
@@ -86,7 +87,7 @@ func drawSpec(r *rng, name string, b specBias) *genParser {
 			Actions: r.intn(100) < b.actions, Preds: r.intn(100) < b.preds, States: r.intn(100) < b.states,
 			Lookahead: r.chance(2, 3), Labels: r.chance(2, 3), Throws: r.intn(100) < b.throws, Fold: r.chance(1, 3),
 			Unicode: r.intn(100) < b.unicode, AnyMatcher: r.chance(1, 2), Display: r.intn(100) < b.display,
-			NullableLoops: r.intn(100) < b.nullableLoops, LeftRec: lr, StateBias: b.stateBias,
+			NullableLoops: r.intn(100) < b.nullableLoops, LeftRec: lr, LeftRecDirect: b.lrDirect, StateBias: b.stateBias,
 		}
 		g := gen.Generate(r2{r}, cfg)
 		if g == nil {
@@ -174,6 +175,15 @@ func confirmAndMinimise(pw *parserWorld, req parsersim.Request, v parsersim.Viol
 	if len(v.Budgets) > 0 {
 		narrow.Budgets = v.Budgets
 	}
+	if len(v.Carries) > 0 {
+		narrow.Carries = v.Carries
+	}
+	if len(v.Choices) > 0 {
+		// replay exactly the simulator decisions of the violating run
+		narrow.UseReplay = true
+		narrow.Replay = v.Choices
+		narrow.PoolRuns = 1
+	}
 	if len(v.FaultSets) > 0 {
 		narrow.FaultSets = v.FaultSets
 	}
@@ -257,6 +267,41 @@ func confirmAndMinimise(pw *parserWorld, req parsersim.Request, v parsersim.Viol
 				i++
 			}
 		}
+	}
+	// simulator decisions: replace by 0 (the ordinary choice) in shrinking chunks
+	if best.UseReplay && len(best.Replay) > 0 {
+		list := append([]int(nil), best.Replay...)
+		for size := len(list); size >= 1 && time.Now().Before(deadline); size /= 2 {
+			for lo := 0; lo < len(list) && time.Now().Before(deadline); lo += size {
+				hi := lo + size
+				if hi > len(list) {
+					hi = len(list)
+				}
+				allZero := true
+				for _, x := range list[lo:hi] {
+					if x != 0 {
+						allZero = false
+					}
+				}
+				if allZero {
+					continue
+				}
+				cand := append([]int(nil), list...)
+				for i := lo; i < hi; i++ {
+					cand[i] = 0
+				}
+				rq := best
+				rq.Replay = cand
+				if x := try(&rq); x != nil {
+					list, best, got = cand, rq, x
+				}
+			}
+		}
+		// drop the all-zero tail (an exhausted list yields zeros anyway)
+		for len(list) > 0 && list[len(list)-1] == 0 {
+			list = list[:len(list)-1]
+		}
+		best.Replay = list
 	}
 	best.Full = true
 	return &best, got
